@@ -532,6 +532,14 @@ fn unit_text(spec: &OpSpec) -> String {
 
 /// Unit lane: one operator, operands are the fields a, b, c.
 fn run_unit(spec: &OpSpec, expr: &Expr, tuples: &[Vec<usize>], bvs: &[BV], tpl: &Templates, rt: &tokio::runtime::Runtime, out: &mut Partial) {
+    let t0 = std::time::Instant::now();
+    run_unit_inner(spec, expr, tuples, bvs, tpl, rt, out);
+    if std::env::var("C11_PROFILE").is_ok() {
+        out.add(&format!("us_{}", spec.name), t0.elapsed().as_micros() as u64);
+    }
+}
+
+fn run_unit_inner(spec: &OpSpec, expr: &Expr, tuples: &[Vec<usize>], bvs: &[BV], tpl: &Templates, rt: &tokio::runtime::Runtime, out: &mut Partial) {
     let text = unit_text(spec);
     let mut lanes: Vec<EngLane> = LANES.iter().map(|l| EngLane::new(*l, tpl, expr)).collect();
     for l in &lanes {
@@ -893,17 +901,22 @@ fn main() {
     let nested = args.opt("--nested").and_then(|x| x.parse().ok()).unwrap_or(args.pick(8000usize, 400_000usize));
     let triples = args.opt("--triples").and_then(|x| x.parse().ok()).unwrap_or(triples);
     let seed = args.seed ^ 0xC11;
-    let parts = parallel(threads, seed, move |ti, mut rng| {
+    // every operator template and the three engine program templates are parsed once, here
+    let shared = Arc::new({
+        let specs = ops();
+        let texts: Vec<String> = specs.iter().map(unit_text).collect();
+        let parsed = parse_many(&texts);
+        (texts, parsed, Templates::new())
+    });
+    let sh = shared.clone();
+    let parts = parallel(threads, seed, move |ti, _rng| {
         OURS.with(|o| o.set(true));
         let mut out = Partial::default();
         let rt = rt();
         let specs = ops();
         let bvs = boundary_values();
         let n = bvs.len();
-        let tpl = Templates::new();
-        // unit lane: every operator template parsed in one go
-        let texts: Vec<String> = specs.iter().map(unit_text).collect();
-        let parsed = parse_many(&texts);
+        let (texts, parsed, tpl) = &*sh;
         let mut task = 0usize;
         for (k, spec) in specs.iter().enumerate() {
             let expr = match &parsed[k] {
@@ -928,7 +941,7 @@ fn main() {
                     task += 1;
                     if task % threads == ti {
                         let tuples: Vec<Vec<usize>> = (0..n).map(|i| vec![i]).collect();
-                        run_unit(spec, expr, &tuples, &bvs, &tpl, &rt, &mut out);
+                        run_unit(spec, expr, &tuples, &bvs, tpl, &rt, &mut out);
                     }
                 }
                 2 => {
@@ -942,7 +955,7 @@ fn main() {
                                     tuples.push(vec![i, j]);
                                 }
                             }
-                            run_unit(spec, expr, &tuples, &bvs, &tpl, &rt, &mut out);
+                            run_unit(spec, expr, &tuples, &bvs, tpl, &rt, &mut out);
                         }
                     }
                 }
@@ -957,7 +970,7 @@ fn main() {
                                         tuples.push(vec![i, j, l]);
                                     }
                                 }
-                                run_unit(spec, expr, &tuples, &bvs, &tpl, &rt, &mut out);
+                                run_unit(spec, expr, &tuples, &bvs, tpl, &rt, &mut out);
                             }
                         }
                     } else {
@@ -972,7 +985,7 @@ fn main() {
                         for chunk in all.chunks(500) {
                             task += 1;
                             if task % threads == ti {
-                                run_unit(spec, expr, chunk, &bvs, &tpl, &rt, &mut out);
+                                run_unit(spec, expr, chunk, &bvs, tpl, &rt, &mut out);
                             }
                         }
                     }
@@ -990,6 +1003,7 @@ fn main() {
     for p in parts {
         rep.merge(p);
     }
+    let sh = shared.clone();
     let parts = parallel(threads, seed ^ 0x2E57ED, move |_ti, mut rng| {
         OURS.with(|o| o.set(true));
         let mut out = Partial::default();
@@ -997,9 +1011,7 @@ fn main() {
         let specs = ops();
         let bvs = boundary_values();
         let n = bvs.len();
-        let tpl = Templates::new();
-        let texts: Vec<String> = specs.iter().map(unit_text).collect();
-        let parsed = parse_many(&texts);
+        let (_texts, parsed, tpl) = &*sh;
         // nested lane: batches of 40 expressions per parser call
         // operators whose plain template the parser rejects (counted above) are left out of the nested generator
         let usable: Vec<usize> = (0..specs.len()).filter(|k| specs[*k].name != "range-small" && matches!(parsed[*k], Parsed::Ok(_))).collect();
@@ -1019,7 +1031,7 @@ fn main() {
             for (i, x) in xs.iter().enumerate() {
                 let picks: Vec<usize> = (0..3).map(|_| rng.below(n)).collect();
                 let vals: Vec<&BV> = picks.iter().map(|p| &bvs[*p]).collect();
-                run_nested(&specs, x, &parsed[i], &vals, (done + i) as i64 + 1, &tpl, &rt, &mut out);
+                run_nested(&specs, x, &parsed[i], &vals, (done + i) as i64 + 1, tpl, &rt, &mut out);
             }
             done += m;
         }
